@@ -20,7 +20,7 @@ META = {
     ),
     "anchors": ["abelian_core.calc_reshape_args", "abelian_core.AbelianArray.reshape"],
     "floors": {
-        "quick": {"evaluations": 60000, "distinct_nontrivial": 400, "tables": {"array/reshape": 3000, "array/roundtrip": 1500, "routine/forward": 40000, "routine/backward": 30000, "routine/with-fused-axes": 50000, "routine/long-forward": 50000, "routine/long-plans-with>=3-groups": 5000, "routine/plans-that-unfuse-and-expand": 2000, "array/expand-or-unfuse-target": 1500, "array/chain-roundtrip-depth-3": 500, "feature/nonzero-charge-singleton": 200, "feature/fused-axis": 200, "kind/fermionic": 500}},
+        "quick": {"evaluations": 60000, "distinct_nontrivial": 400, "tables": {"array/reshape": 3000, "array/roundtrip": 1500, "routine/forward": 40000, "routine/backward": 30000, "routine/with-fused-axes": 50000, "routine/long-forward": 50000, "routine/long-plans-with>=3-groups": 5000, "routine/plans-that-unfuse-and-expand": 2000, "array/expand-or-unfuse-target": 1500, "array/chain-roundtrip-depth-3": 500, "feature/nonzero-charge-singleton": 200, "feature/fused-axis": 200, "kind/fermionic": 500, "array/many-legs-roundtrip": 2000, "feature/merged-run-with->=6-odd-charges": 300}},
         "thorough": {"evaluations": 300000, "distinct_nontrivial": 8000, "tables": {"array/reshape": 100000, "routine/forward": 40000}},
     },
     "exhaustive": {"quick": False, "thorough": False},
@@ -358,7 +358,7 @@ AMBIG = "reshape-unfuses-preexisting-fused-axis"
 
 def make_subject(ctx, rng):
     sr = ctx.sr
-    sym = rng.choice(gen.SYMS5)
+    sym = gen.pick_sym(rng)
     ferm = rng.random() < 0.4
     nd = rng.randint(1, 4)
     idx = []
@@ -387,6 +387,64 @@ def make_subject(ctx, rng):
             x = o.value
             feats.add("fused-axis")
     return x, feats
+
+
+def many_legs_case(ctx, rng):
+    """6-8 axes of size 2-3; a run of 5-8 adjacent axes is merged into one (all of them now and
+    then) and the result is reshaped back to the original shape: shape, norm, magnitudes, and
+    bit-exact restoration. All-bra and all-ket runs; fermionic sectors with six or more odd
+    charges inside the merged run."""
+    sr = ctx.sr
+    sym = rng.choice(["Z2", "Z2", "U1", "Z4", "Z2Z2", gen.pick_sym(rng)])
+    ferm = rng.random() < 0.6
+    nd = rng.randint(6, 8)
+    du = rng.choice(["random", "all-dual", "all-dual", "all-ket"])
+    pool = gen.POOL[sym]
+    idx = []
+    for _ in range(nd):
+        cs = sorted(rng.sample(pool, 2))
+        idx.append(sr.BlockIndex({cs[0]: 1, cs[1]: 1 if rng.random() < 0.8 else 2}, dual={"random": rng.random() < 0.5, "all-dual": True, "all-ket": False}[du]))
+    x = gen.make_array(sr, rng, sym, idx, fermionic=ferm, values=gen.Values(rng, "unique"), sparsity=rng.choice([0.0, 0.0, 0.3]), exotic=False)
+    if not x.blocks:
+        return
+    shape = tuple(ix.size_total for ix in x.indices)
+    k = rng.randint(5, nd)
+    lo = rng.randint(0, nd - k)
+    merged = 1
+    for d in shape[lo : lo + k]:
+        merged *= d
+    target = shape[:lo] + (merged,) + shape[lo + k :]
+    wit = {"x": describe(x), "target": list(target), "merged_axes": [lo, lo + k - 1]}
+    o = ctx.call(lambda: x.reshape(target))
+    ctx.evaluated()
+    ctx.count("array", "many-legs-reshape")
+    if not o.ok:
+        ctx.violation(f"reshape-raises-{o.excname}", f"reshape {shape} -> {target}: {o.exc!r}", wit)
+        return
+    y = o.value
+    ys = tuple(y.shape)
+    # the merged axis lists only the fused charges some stored / allowed sector reaches, so it
+    # may be SMALLER than the product (never larger); the other axes are exact
+    if len(ys) != len(target) or ys[:lo] != target[:lo] or ys[lo + 1 :] != target[lo + 1 :] or ys[lo] > target[lo] or audit(y):
+        ctx.violation("reshape-shape", f"reshape {shape} -> {target} gave shape {ys} / {audit(y)[:2]}", wit)
+        return
+    if sumsq(y) != sumsq(x) or not np.array_equal(magnitudes(y), magnitudes(x)):
+        ctx.violation("reshape-changes-content", f"reshape {shape} -> {target}: sum of squares / magnitudes changed", wit)
+        return
+    ob = ctx.call(lambda: y.reshape(shape))
+    ctx.count("array", "many-legs-roundtrip")
+    if not ob.ok:
+        ctx.violation(f"reshape-back-raises-{ob.excname}", f"reshape {shape} -> {target} -> {shape}: {ob.exc!r}", wit)
+        return
+    m = same_array(x, ob.value)
+    if m:
+        ctx.violation("reshape-roundtrip", f"reshape {shape} -> {target} -> {shape} does not restore the original: {m}", wit)
+        return
+    nodd = max((sum(R.par(sym, s_[a]) for a in range(lo, lo + k)) for s_ in x.blocks), default=0)
+    if ferm and nodd >= 6:
+        ctx.count("feature", "merged-run-with->=6-odd-charges")
+    ctx.count("feature", f"merged-run:{du}")
+    ctx.nontrivial(("many", struct_sig(x), lo, k))
 
 
 def array_case(ctx, rng):
@@ -655,6 +713,8 @@ def run(ctx):
         ctx.run_case(routine_case, ctx, ac, shape, k)
     else:
         ctx.count("enum_complete", "routine-box")
+    for _, rng in ctx.cases("many-legs", ctx.budget(3000, 60000)):
+        ctx.run_case(many_legs_case, ctx, rng)
     for _, rng in ctx.cases("chains", ctx.budget(4000, 80000)):
         ctx.run_case(chain_case, ctx, rng)
     for _, rng in ctx.cases("routine-arbitrary", ctx.budget(100000, 1500000)):
